@@ -238,6 +238,17 @@ Chains(rs) == { rs, <<At("Media", <<I("screen", TRUE)>>, "rules", rs)>>,
                     <<At("media", <<I("print", TRUE)>>, "rules", <<At("media", <<Par(<<I("c", FALSE), Col(FALSE), Dim(3, "rpx", FALSE)>>, TRUE)>>, "rules", rs)>>)>>)>> }
 FHost(lazy) == UNION { Chains(<<Ord("a"), h, Ord("b")>>) \cup Chains(<<h, h>>) \cup Chains(<<Ord("a"), h>>) : h \in HostRules }
           \cup UNION { Chains(<<n, h>>) \cup Chains(<<h, n, h, Ord("z")>>) : n \in NoRules, h \in {Rule(HostSel, HD)} }
+          (* a :host rule BEHIND an inner at-rule that held one: leaving the inner block shortens the chain of wrappers again,
+             level by level, down to no wrapper at all *)
+          \cup (LET h == Rule(HostSel, HD)
+                    sup(rs) == At("supports", <<Par(<<I("display", FALSE), Col(FALSE), I("grid", TRUE)>>, TRUE)>>, "rules", rs)
+                    med(rs) == At("media", <<I("screen", TRUE)>>, "rules", rs)
+                    lay(rs) == At("layer", <<I("x", TRUE)>>, "rules", rs)
+                IN { <<med(<<Ord("a"), sup(<<h>>), h, Ord("b")>>)>>,
+                     <<lay(<<med(<<sup(<<h>>), h>>), h>>), h>>,
+                     <<med(<<sup(<<Ord("a")>>), h>>)>>,
+                     <<med(<<sup(<<h>>), sup(<<h>>), h>>), med(<<h>>)>>,
+                     <<lay(<<med(<<h>>), sup(<<h, Ord("c")>>), h>>), Ord("d"), h>> })
 HostOpts == {[NoOpt EXCEPT !.host = hs, !.prefix = p, !.hostIs = hi] : hs \in BOOLEAN, p \in {"none", "p"}, hi \in {"none", "IS"}}
 
 -----------------------------------------------------------------------------
